@@ -265,6 +265,7 @@ def run(res, tier, br, model_ok=True, search=False):
     # damaged texts: a lexical accident somewhere, ordinary diagnostics after it (down to the last line)
     hosts = [(p.name, p.text) for p in progs[: (40 if tier == "thorough" else 8)]] + [(n_, s_) for n_, s_ in files if n_.startswith("lex")]
     files += [(nm, t) for nm, t, what in families.damaged(rng, hosts, per_host=10 if tier == "thorough" else 6)]
+    files += [(nm, t) for nm, t, what in families.damaged_tail(rng, hosts, per_host=4 if tier == "thorough" else 2)]
     results = []
     for name, src in files:
         r = pipeline(name, src)
@@ -298,6 +299,10 @@ def cli_formats(res, rng, files):
             nm = f"n{k}_{name}"
             open(os.path.join(d, nm), "w").write(src)
             names.append(nm)
+        # a symbolic link is a file under its own name, in both reports
+        if names:
+            os.symlink(names[0], os.path.join(d, "lnk_to_first.c" if names[0].endswith(".c") else "lnk_to_first.h"))
+            names.append("lnk_to_first.c" if names[0].endswith(".c") else "lnk_to_first.h")
         rng.shuffle(names)
         got = {}
         for o in (["--no-colors"], ["-f", "json"]):
